@@ -279,6 +279,14 @@ def run_api(exe, hist, work, tag, timeout=240):
     return s, out, outcome, stack, model
 
 
+def pack(script):
+    """script for a replay file: readable (long hex shortened) + complete when it fits"""
+    full = list(script)
+    return {"script": [nodedb.short(x, 300) for x in full],
+            "script_full": full if sum(map(len, full)) < 400000 else None,
+            "script_sha1": hashlib.sha1("\n".join(full).encode()).hexdigest()}
+
+
 def classify_x(line):
     """X K <fi> <addr> <len> <idx> ...: a stack hit on the file header that differs only inside the modification date"""
     t = line.split(" ")
@@ -308,8 +316,15 @@ def run_extra(ck, pid="C02b"):
     os.makedirs(work, exist_ok=True)
     vlib.build_impl()
     exe, hook = build_harness()
+    prev = {k: ck.extra.get(k) for k in ("print_assumptions", "theorems", "coq_wall_s")}
     res = vlib.coq_check_properties(pid)
     broken = ck.proof_result(res, CHECKER if ck.pid == "C02b" else ck.cov.get("checker_cmd", "") + "; " + CHECKER)
+    if prev["theorems"]:            # called from checks/C02.py: keep C02's own proof evidence next to ours
+        pa, pb = prev["print_assumptions"] or {}, res["assumptions"]
+        ck.extra["print_assumptions"] = {"closed": pa.get("closed", 0) + pb["closed"], "with_axioms": pa.get("with_axioms", 0) + pb["with_axioms"],
+                                         "axioms": sorted(set(pa.get("axioms", [])) | set(pb["axioms"]))}
+        ck.extra["theorems"] = list(prev["theorems"]) + res["theorems"]
+        ck.extra["coq_wall_s"] = round((prev["coq_wall_s"] or 0) + res.get("wall_s", 0), 1)
     forb = vlib.coq_forbidden_scan(pid)
     if forb:
         ck.violation({"broken_obligation": "forbidden tokens", "hits": forb}, nofail=True)
@@ -372,8 +387,8 @@ def run_extra(ck, pid="C02b"):
             ustat["safe_histories_checked_against_python_ideal_store"] += 1
             bad = unit_oracle(script, out)
         if bad:
-            findings.setdefault("adf-block-buffer-stale:unit", {"mode": "unit", "script": [nodedb.short(x, 300) for x in script], "failure": bad,
-                                                               "oracle": "python ideal store (offset -> last byte written), safe history"})
+            findings.setdefault("adf-block-buffer-stale:unit", dict(pack(script), mode="unit", failure=bad,
+                                                                    oracle="python ideal store (offset -> last byte written), safe history"))
         if a["diffs"] or (outcome == "ok" and not model):
             diffs.append(("unit", script, [d[1][:300] + " @ " + d[2][:120] for d in a["diffs"][:3]]))
         for p in paths.values():
@@ -408,16 +423,15 @@ def run_extra(ck, pid="C02b"):
             if outcome != "ok":
                 if "H5" in " ".join(stack):
                     continue
-                findings.setdefault("adf-crash:" + outcome.split("@")[-1], {"mode": "api", "script": [nodedb.short(x, 300) for x in s], "outcome": outcome, "stack": stack})
+                findings.setdefault("adf-crash:" + outcome.split("@")[-1], dict(pack(hist), mode="api", outcome=outcome, stack=stack))
                 continue
             for idx, x in a["xs"]:
                 key = classify_x(x) or "adf-cache-hit-differs-from-authoritative-bytes"
-                findings.setdefault(key, {"mode": "api", "script": [nodedb.short(y, 300) for y in s[:api_line_of(out, idx) + 1]],
-                                          "oracle_line": x[:300], "oracle": "bytes returned vs pread of the file overlaid with the pending write block"})
+                findings.setdefault(key, dict(pack(hist[:api_line_of(out, idx) + 1]), mode="api", oracle_line=x[:300],
+                                              oracle="bytes returned vs pread of the file overlaid with the pending write block"))
             for idx, v, tline in a["viols"]:
                 key = classify_viol(v)
-                findings.setdefault(key, {"mode": "api", "script": [nodedb.short(y, 300) for y in s[:api_line_of(out, idx) + 1]],
-                                          "monitor": v[:300], "trace_event": tline[:200]})
+                findings.setdefault(key, dict(pack(hist[:api_line_of(out, idx) + 1]), mode="api", monitor=v[:300], trace_event=tline[:200]))
             if a["diffs"] or not model:
                 diffs.append(("api", s, [d[1][:300] + " @ " + d[2][:120] for d in a["diffs"][:3]]))
         ex["api"] = dict(astat, model_counters=asum,
@@ -450,8 +464,8 @@ def run_extra(ck, pid="C02b"):
                 if os.path.exists(p):
                     os.unlink(p)
             if wide_bad:
-                ck.violation({"mode": "unit", "script": [nodedb.short(x, 300) for x in script], "failure": wide_bad,
-                              "oracle": "python ideal store, safe history (widened search after a model/implementation divergence)"})
+                ck.violation(dict(pack(script), mode="unit", failure=wide_bad,
+                                  oracle="python ideal store, safe history (widened search after a model/implementation divergence)"))
                 break
         if not wide_bad:
             kind, script, detail = diffs[0]
@@ -476,5 +490,25 @@ def run(ck):
 def replay(ck, path):
     r = json.load(open(path))
     vlib.build_impl(); exe, hook = build_harness(); vlib.build_modelrun("c02b")
-    print("replay: finding %s (mode %s); re-run ./check C02b to regenerate the trace" % (r.get("finding_key"), r.get("mode")))
-    return 1
+    script = r.get("script_full") or r.get("script")
+    key = r.get("finding_key")
+    if not script:
+        print("replay names a broken obligation / correspondence, no input to run"); return 1
+    if r.get("mode") == "unit":
+        out, outcome, stack, model = run_unit(exe, script)
+        a = analyse(out, model)
+        bad = {"outcome": outcome, "stack": stack} if outcome != "ok" else unit_oracle(script, out)
+        print("replay (unit): %s; model/implementation divergences: %d" % (json.dumps(bad) if bad else "holds", len(a["diffs"])))
+        return 1 if bad else 0
+    if not hook:
+        print("replay: the library under test has no trace hook; an api-level finding cannot be re-evaluated"); return 1
+    s, out, outcome, stack, model = run_api(exe, script, ck.work, "replay")
+    a = analyse(out, model)
+    keys = {classify_x(x) or "adf-cache-hit-differs-from-authoritative-bytes" for i, x in a["xs"]} | {classify_viol(v) for i, v, t in a["viols"]}
+    if outcome != "ok":
+        keys.add("adf-crash:" + outcome.split("@")[-1])
+    print("replay (api): outcome %s, finding keys reproduced: %s, model/implementation divergences: %d" % (outcome, sorted(keys), len(a["diffs"])))
+    if key == MODDATE_KEY:
+        o2, oc2 = vlib.run_impl(exe, "", args=["moddate", os.path.join(ck.work, "moddate.adf")], timeout=30)
+        print("cgio_file_version vs file after 1.1 s: %s" % (o2[-1] if o2 else oc2))
+    return 1 if (key in keys or outcome != "ok") else 0
